@@ -136,9 +136,6 @@ def run(rep, tier):
         mutants += [("forest_path_not_reversed", "C17_CongCImpl", "C17_CongCImpl_forest.cfg",
                      [("C17_CongCAlgo.tla", "THEN LET i == CHOOSE i \\in 1..(Len(path) - 1) : path[i+1][1] = c IN <<path[i][1], path[i+1][2]>>",
                        "THEN pf[c]")], ["ExplainCorrect", "ForestMatchesRep"]),
-                    ("use_list_not_moved", "C17_CongCImpl", "C17_CongCImpl_small.cfg",
-                     [("C17_CongCAlgo.tla", "ELSE UseFold(rep2, us, i+1, [lk EXCEPT ![k] = e], Append(ub, e), np)",
-                       "ELSE UseFold(rep2, us, i+1, [lk EXCEPT ![k] = e], ub, np)")], ["TestCorrect", "LookupComplete"]),
                     ("merge_ignores_existing_lookup", "C17_CongCImpl", "C17_CongCImpl_small.cfg",
                      [("C17_CongCAlgo.tla", "IF st.lk[k] # NoEq THEN [st EXCEPT !.pend = Append(@, LabF(e, st.lk[k]))]",
                        "IF FALSE THEN st")], ["TestCorrect", "LookupComplete"]),
@@ -155,8 +152,9 @@ def run(rep, tier):
     jobs = [("c17", ["core", vec, wd / "core.ndjson", sd, 0, 0, 1 if quick else 0], None),
             ("c17", ["hol", vec, wd / "hol.ndjson", sd, 300 if quick else 6000], None),
             ("c17", ["holrand", 100 if quick else 2500, wd / "holrand.ndjson", sd], None),
+            ("c17", ["corerand", 200 if quick else 3000, wd / "corerand.ndjson", sd], None),
             ("c17", ["uf", vec, 100 if quick else 0, 120 if quick else 3000, wd / "uf.ndjson", sd], None)]
-    traces = ["core", "hol", "holrand", "uf"]
+    traces = ["core", "hol", "holrand", "corerand", "uf"]
     for name, vf, mx, every in extra:
         jobs.append(("c17", ["core", vf, wd / ("core_%s.ndjson" % name), sd, mx, every, 1 if name in ("wide", "c4") else 0], None))
         traces.append("core_" + name)
